@@ -228,6 +228,30 @@ Section Proofs.
     split; intros ->; eauto.
   Qed.
 
+  (** "every mutating call on a ReadOnly File fails" is REFUTED for a second File object on a path the same
+      process has open ReadWrite: the ReadOnly open succeeds, the File reports ReadOnly, and a mutating call
+      through it is accepted and changes the shared image (so it reaches the disk with the next flush).
+      [ro_no_write] above is the statement for a File that is the only one its process has on that path. *)
+  Theorem second_ro_file_accepts_refuted (ss : session) m c v comp :
+    is_ro (s_mode _ ss) = false ->
+    checkHeader (f_hdr _ (s_img _ ss)) ReadOnly true = Ok true ->
+    apply m (f_tree _ (s_img _ ss)) = Ok (c, v) ->
+    second_open content ss ReadOnly comp false = Ok (ReadOnly, resolve_comp comp) /\
+    mutate_second content mut val apply cls unlink_checked ss m = Ok (set_tree content ss c, v).
+  Proof.
+    intros Hw Hh Ha. split.
+    - unfold second_open. cbn [is_ow is_ro negb andb]. cbn [negb]. now rewrite Hh.
+    - unfold mutate_second, Modes.mutate. rewrite Ha. cbn [bind]. now rewrite Hw.
+  Qed.
+
+  (** the other order is refused: no ReadWrite (or Overwrite) File next to a ReadOnly one *)
+  Theorem second_rw_after_ro_refused (ss : session) mode comp force :
+    is_ro (s_mode _ ss) = true -> mode <> ReadOnly ->
+    second_open content ss mode comp force = Err "nix::hdf5::H5Exception".
+  Proof.
+    intros Hr Hm. unfold second_open. rewrite Hr. destruct mode; [reflexivity|contradiction|reflexivity].
+  Qed.
+
   (** [ro_open_no_write]: opening a file the library produced in ReadOnly mode succeeds, performs no write,
       and shows the file's tree *)
   Theorem ro_open_no_write (s : fsys) name (f : h5file) comp force :
